@@ -276,7 +276,7 @@ mk('C11', ['SchedProofs','UsesProofs','ExecBudget','RevConv','RevBridge4','DiskU
    lifted('C11_disk_touch_uses','DiskUses','disk_touch_uses','DiskRevolve and PeriodicDiskRevolve with at least one RAM snapshot (snapshots_in_ram = 0 is accepted for max_n = 1 only), every history (requests, finalize calls, Run loops in any order): RAM and DISK are reported as used at every observation, so whatever an action touches is reported as used'),
    lifted('C11_hrev_touch_uses','HRevUses','hrev_touch_uses','HRevolve, snapshots_in_ram >= 1 and snapshots_on_disk >= 0, every history: a touched storage is reported as used -- with a disk slot RAM and DISK are both reported; without one the op list is a memory-only block (the infinite column of optp[1]) and the converter never names DISK'),
    lifted('C11_touch_needs_budget_partial','ExecBudget','run_touch','PARTIAL (the three disk classes with snapshots_in_ram = 0, accepted for max_n = 1 only): class-independent fact about the reference executor -- on any error-free monitored run the store sizes stay within the declared budgets and an action touching RAM / DISK is accepted only if that budget is positive; error-freeness of those runs is not proved, so touched => uses rests on correspondence + oracle')])
-mk('C13', ['TLInv','TLSweep','Online'], [
+mk('C13', ['TLInv','TLSweep','Online','TLStorage','HRevUses'], [
    lifted('C13_sweep_pattern','TLSweep','twolevel_sweep','FIRST CLAUSE, extracted model, every period >= 1, every binomial_snapshots, both storages, both trajectories, every number j of requests before finalisation: the observations are exactly Forward(i P, (i+1) P, write_ics, DISK) with n = (i+1) P, r = 0, max_n unknown, not exhausted, for i = 0 .. j-1'),
    """(* the whole TwoLevel run on the extracted model *)
 Theorem C13_twolevel_run : forall (N P bs : Z) (bst : storage) (tj : traj), 1 <= N -> 1 <= P -> 0 <= bs -> bst = RAM \\/ bst = DISK -> forall k : nat,
@@ -287,7 +287,7 @@ Print Assumptions C13_twolevel_run.
 """,
    lifted('C13_pass_totals','TLBridge','twolevel_totals','SECOND CLAUSE, totals on the extracted model: whenever the generator stands between adjoint passes (head of its `while True`: after EndForward / each EndReverse) the reference executor has carried out N + passes * W forward steps, W = TLBridge.W = the sum over the period blocks of T(block length, binomial_snapshots + 1) with T = Inst.TC, the work of the binomial recursion (= the Griewank-Walther optimum by C05_chain); every N (last block partial or full), both storages, both trajectories, all passes'),
    lifted('C13_block_total','TLInv','block_total','per block, on the TwoLevel machine of TLInv.v that the extracted machine is proved to follow (TLBridge.resume_agrees): when a block has been reversed completely, exactly T(L, b+1) forward steps were spent on it'),
-   lifted('C13_storage_of_extra_checkpoints_partial','TLBridge','tl_exec_agrees','PARTIAL: that extra checkpoints go only to the binomial storage is contained in the executor bridge (every accepted checkpointing Forward inside a block names bst) and in the budgets of the run theorem (0 units in the other storage), but is not stated as a separate theorem')])
+   lifted('C13_storages','TLStorage','twolevel_storages','STORAGES, every history: a yielded Forward that stores a restart checkpoint names DISK or the binomial storage and stores nothing else; adjoint dependencies go to WORK only; a checkpoint is loaded into WORK from DISK or from the binomial storage'), lifted('C13_storages_step','TLStorage','resume_two_storage','... sharper, per request and from every state: while max_n is unknown a checkpointing Forward is Forward(n, n + period, True, False, DISK); once it is known, it goes to the binomial storage'), lifted('C13_exec_bridge','TLBridge','tl_exec_agrees','(auxiliary) the executor bridge of the TwoLevel invariant machine')])
 mk('C14', ['TopK','AllocProofs','SplitProofs','AllocMin','AllocGlue'], [lifted('C14_labels_only','SplitProofs','C14_labels_only','first clause: two Multistage configurations with the same max_n, trajectory and number of labels produce the same stream up to the storage named in checkpoint actions (erase_out forgets RAM/DISK), from every state and for every number of requests'),
    lifted('C14_construct_labels','AllocProofs','construct_labels','the labels of a constructed Multistage schedule: all RAM or DISK, min(ram+disk, N-1) of them, at most min(ram, N-1) RAM and at most min(disk, N-1) DISK'),
    lifted('C14_alloc_labels_facts','AllocProofs','alloc_labels_facts','exactly min(ram, #positions) positions are labelled RAM'),
